@@ -79,16 +79,18 @@ var Types = []TypeInfo{
 	{17, "struct2", "local", true},
 	{18, "ptr-named-basic", "local", false},
 	{19, "named-func", "local", false},
-	// Types 20.. are only used as Slice/Map element or parameter types
-	// (assignability lattice), never as flow values.
+	// Type 20 is also a flow value: it is assignable to type 7, so a generator bug that passes
+	// the wrong provider's variable can still compile.
 	{20, "impl-struct", "local", true},    // i7, implements interface type 7
+	// Types 21.. are only used as Slice/Map element or parameter types
+	// (assignability lattice), never as flow values.
 	{21, "unnamed-slice", "local", false}, // []int64, underlying type of type 3
 	{22, "basic", "local", true},          // int64, underlying type of type 2
 	{23, "unnamed-func", "local", false},  // func() int64, underlying type of type 19
 }
 
 // NumTypes is the number of type ids usable as flow values (ids 0..NumTypes-1).
-var NumTypes = 20
+var NumTypes = 21
 
 // Assignable is Go assignability of a value of type id from to a
 // variable of type id to, for the types of the pool.
@@ -188,6 +190,7 @@ type Program struct {
 	Generic bool   // enclosing function is generic
 	TyAlias bool   // package ty imported under an alias
 	Quirk   string // source-level quirk for known streams ("" = none)
+	QuirkK  int    // the task a sig-* quirk applies to
 	Site    string // call site of the directive: assign | return | if | arg
 	ModSub  bool   // flow lies in the subset modifier mode supports
 
@@ -325,7 +328,7 @@ func (p *Program) SpecLines() []string {
 	if site == "" {
 		site = "assign"
 	}
-	add("P %d meta stream=%s generic=%d tyalias=%d quirk=%s site=%s modsubset=%d", p.PID, p.Stream, b2i(p.Generic), b2i(p.TyAlias), quirk, site, b2i(p.ModSub))
+	add("P %d meta stream=%s generic=%d tyalias=%d quirk=%s quirkk=%d site=%s modsubset=%d", p.PID, p.Stream, b2i(p.Generic), b2i(p.TyAlias), quirk, p.QuirkK, site, b2i(p.ModSub))
 	if p.Kind == "flow" {
 		if len(p.Params) > 0 {
 			add("P %d params %s", p.PID, spaceList(p.Params))
@@ -554,6 +557,7 @@ func ParseFile(lines []string) ([]*Program, error) {
 				if kv["quirk"] != "-" {
 					p.Quirk = kv["quirk"]
 				}
+				p.QuirkK, _ = strconv.Atoi(kv["quirkk"])
 				p.Site = kv["site"]
 				p.ModSub = kv["modsubset"] == "1"
 			case "params":
